@@ -48,11 +48,11 @@ def run(ctx):
             if mc_trunc:
                 kw = dict(mc_iterations=6, mc_truncation_steps=1, mc_tolerance=rng.choice([0.2, 0.35, 0.5]), seed=rng.randrange(1000))
 
-        def score(Xa, ya, Xva, yva, pipeline=None):
+        def score(Xa, ya, Xva, yva, pipeline=None, **more):
             util = U.SklearnModelAccuracy(KNeighborsClassifier(1))
             with warnings.catch_warnings():
                 warnings.simplefilter("ignore")
-                imp = I["imp"].ShapleyImportance(method=method, utility=util, pipeline=pipeline, **kw)
+                imp = I["imp"].ShapleyImportance(method=method, utility=util, pipeline=pipeline, **dict(kw, **more))
                 return list(np.asarray(imp.fit(Xa, ya).score(Xva, yva), dtype=float))
         case = dict(method=method, X=X.tolist(), y=y.tolist(), Xv=Xv.tolist(), yv=yv.tolist(), kw=kw)
         try:
@@ -78,6 +78,7 @@ def run(ctx):
             "sparse_pipeline": lambda: (X, y, Xv, yv, Pipeline([("sp", FunctionTransformer(csr_matrix))])),
             "stateful_pipeline_vs_pretransformed": lambda: (X, y, Xv, yv, Pipeline([("sc", StandardScaler())])),
             "scale_pipeline_vs_pretransformed": lambda: (X, y, Xv, yv, Pipeline([("f", FunctionTransformer(lambda A: np.asarray(A) * np.array([3.0, 0.2]) + np.array([1.0, -2.0])))])),
+            "scale_pipeline_preextract_vs_pretransformed": lambda: (X, y, Xv, yv, Pipeline([("f", FunctionTransformer(lambda A: np.asarray(A) * np.array([3.0, 0.2]) + np.array([1.0, -2.0])))])),
             "map_pipeline": lambda: (np.hstack([X, np.zeros((n, 1))]), y, np.hstack([Xv, np.zeros((m, 1))]), yv, Pipeline([("cut", FunctionTransformer(lambda A: np.asarray(A)[:, :2]))])),
         }
         # pandas containers whose row indexes are NOT the default one and do NOT match between features and labels: the library takes rows by POSITION
@@ -138,7 +139,13 @@ def run(ctx):
                 except Exception as e:  # noqa
                     ctx.mismatch("pre-transformed rendering raised", rcase, impl=exc_name(e) + repr(e))
                     continue
-            if name == "scale_pipeline_vs_pretransformed":
+            more = {}
+            if name == "scale_pipeline_preextract_vs_pretransformed":
+                # montecarlo with mc_preextract=True: the (map) pipeline is applied ONCE up front, to the training and the validation features alike
+                if method != "montecarlo":
+                    continue
+                more = {"mc_preextract": True}
+            if name in ("scale_pipeline_vs_pretransformed", "scale_pipeline_preextract_vs_pretransformed"):
                 f = lambda A: np.asarray(A) * np.array([3.0, 0.2]) + np.array([1.0, -2.0])      # noqa: E731
                 try:
                     ref = score(f(X), y, f(Xv), yv)
@@ -146,7 +153,7 @@ def run(ctx):
                     ctx.mismatch("pre-transformed rendering raised", rcase, impl=exc_name(e) + repr(e))
                     continue
             try:
-                got = score(Xa, ya, Xva, yva, pipeline=pipe)
+                got = score(Xa, ya, Xva, yva, pipeline=pipe, **more)
             except (AssertionError, ValueError, TypeError, KeyError, AttributeError, IndexError) as e:
                 accepted[(method, name)] = "rejected:" + type(e).__name__
                 if (method, name) not in REJECTED_ON_PINNED_TREE:
